@@ -84,7 +84,7 @@ def assoc_events(ctx):
     unassigned tag) followed by signatures: which signatures does PGPy hold on which component, in memory and after export."""
     pgpy = import_pgpy()
     ev = []
-    for variant in ('plain', 'v5-subkey-between', 'unknown-tag-after-uid', 'v5-subkey-last', 'v5-subkey-first', 'trust-and-v5', 'two-unknown', 'five-octet-subpacket-lengths', 'latin1-uid'):
+    for variant in ('plain', 'v5-subkey-between', 'unknown-tag-after-uid', 'v5-subkey-last', 'v5-subkey-first', 'trust-and-v5', 'two-unknown', 'five-octet-subpacket-lengths', 'latin1-uid', 'local-signatures'):
         for secret in (False, True):
             fk = build.ForeignKey('ed25519')
             s1 = enc.Recipient('cv25519', created=fk.created + 1)
@@ -119,6 +119,17 @@ def assoc_events(ctx):
                 ins[len(raws)] = v5pk + b5 + r5
             if variant in ('unknown-tag-after-uid', 'two-unknown'):
                 ins[uididx[1]] = unk + su
+            if variant == 'local-signatures':
+                # signatures marked non-exportable (hashed Exportable Certification = 0) of several types and places, by a third party: a local
+                # certification of an identity, a local direct-key signature, a local signature over a subkey; plus exportable ones beside them
+                tp = build.ForeignKey('ed25519', created=fk.created + 50)
+                loc = [build.subpacket(4, b'\x00')]
+                l_uid, _ = build.sig_packet(tp, 0x10, 'sha256', loc, [], build.subject_octets(0x10, primary=fk.pub_body, uid=uids[0]), created=fk.created + 60)
+                e_uid, _ = build.sig_packet(tp, 0x12, 'sha256', [build.subpacket(4, b'\x01')], [], build.subject_octets(0x12, primary=fk.pub_body, uid=uids[0]), created=fk.created + 61)
+                l_key, _ = build.sig_packet(tp, 0x1F, 'sha256', loc, [], build.subject_octets(0x1F, primary=fk.pub_body), created=fk.created + 62)
+                e_key, _ = build.sig_packet(tp, 0x1F, 'sha256', [], [], build.subject_octets(0x1F, primary=fk.pub_body), created=fk.created + 63)
+                ins[uididx[0]] = l_key + e_key          # directly after the primary key packet
+                ins[uididx[1]] = l_uid + e_uid          # after the signatures of the first identity
             blob = b''.join(ins.get(j, b'') + r for j, r in enumerate(raws)) + ins.get(len(raws), b'')
             e = {'k': 'assoc', 'label': '%s %s' % (variant, 'secret' if secret else 'public'), 'blob': octets(blob), 'got': [], 'reexport': [], 'copy_export': [], 'pub_export': []}
             with warnings.catch_warnings():
